@@ -18,7 +18,7 @@ Open Scope Z_scope.
 
 (* MAIN.  A CNF file (clause lines raw without literal 0, satisfiable, stored set not empty)
    is loaded; then ANY list of commands is run (clause-update with any t / add / rmv lists,
-   undo-update, save-cnf).  Every answer is the one the abstract machine prescribes
+   undo-update, save-cnf).  Every cc_answer is the one the abstract machine prescribes
    (answers_ok: an update answers "" iff the machine accepts it and an error iff it rejects it,
    undo-update answers "", save-cnf writes exactly the machine's clause set and feature count;
    the only possible panic is an accepted update whose resulting CNF cannot be loaded), and
@@ -39,7 +39,7 @@ Print Assumptions C12_refines.
    prints the machine's current set and n. *)
 Theorem C12_coupling : forall loadable d m, R loadable d m ->
   exists c, cached d = Some c /\
-    clauses c = canon_set (m_cs m) /\
+    cclauses c = canon_set (m_cs m) /\
     total c = Some (m_n m) /\
     snd (live_of d) = m_n m /\
     (forall s, cs_sat s (fst (live_of d)) = cs_sat s (m_cs m)) /\
@@ -110,10 +110,10 @@ Print Assumptions C12_undo_twice.
    CNF's): the live model after any history has exactly the models of the machine's clause set. *)
 Theorem C12_answers : forall loadable (compile : clause_set -> nat -> circuit),
   (forall cs n, loadable cs n = true ->
-     check_wf (compile cs n) n = true /\ Models (compile cs n) n = cnf_models cs n) ->
+     check_wf (compile cs n) n = true /\ Models (compile cs n) n = cs_models cs n) ->
   forall d m, R loadable d m ->
   check_wf (live_circuit compile d) (m_n m) = true /\
-  Models (live_circuit compile d) (m_n m) = cnf_models (m_cs m) (m_n m).
+  Models (live_circuit compile d) (m_n m) = cs_models (m_cs m) (m_n m).
 Proof. exact answers. Qed.
 Print Assumptions C12_answers.
 
@@ -121,7 +121,7 @@ Print Assumptions C12_answers.
    model = number of models of the machine's CNF that contain A. *)
 Theorem C12_count_answers : forall loadable (compile : clause_set -> nat -> circuit),
   (forall cs n, loadable cs n = true ->
-     check_wf (compile cs n) n = true /\ Models (compile cs n) n = cnf_models cs n) ->
+     check_wf (compile cs n) n = true /\ Models (compile cs n) n = cs_models cs n) ->
   forall d m A s, R loadable d m ->
   in_range (m_n m) A -> Clean (live_circuit compile d) s ->
   snd (execute_query (build (live_circuit compile d) (m_n m)) A s) = cnf_count (m_cs m) (m_n m) A.
@@ -130,7 +130,7 @@ Print Assumptions C12_count_answers.
 
 Theorem C12_sat_answers : forall loadable (compile : clause_set -> nat -> circuit),
   (forall cs n, loadable cs n = true ->
-     check_wf (compile cs n) n = true /\ Models (compile cs n) n = cnf_models cs n) ->
+     check_wf (compile cs n) n = true /\ Models (compile cs n) n = cs_models cs n) ->
   forall d m A, R loadable d m ->
   in_range (m_n m) A -> 0 < cnf_count (m_cs m) (m_n m) [] ->
   sat (build (live_circuit compile d) (m_n m)) A = (0 <? cnf_count (m_cs m) (m_n m) A).
@@ -139,10 +139,10 @@ Print Assumptions C12_sat_answers.
 
 Theorem C12_core_answers : forall loadable (compile : clause_set -> nat -> circuit),
   (forall cs n, loadable cs n = true ->
-     check_wf (compile cs n) n = true /\ Models (compile cs n) n = cnf_models cs n) ->
+     check_wf (compile cs n) n = true /\ Models (compile cs n) n = cs_models cs n) ->
   forall d m s l, R loadable d m -> no_dead (live_circuit compile d) = true ->
   (In l (snd (core_dead_with_assumptions (build (live_circuit compile d) (m_n m)) [] s)) <->
-   forall mo, In mo (cnf_models (m_cs m) (m_n m)) -> In l mo).
+   forall mo, In mo (cs_models (m_cs m) (m_n m)) -> In l mo).
 Proof. exact core_answers. Qed.
 Print Assumptions C12_core_answers.
 
@@ -201,7 +201,7 @@ Proof. exact refuted_unsat_panic. Qed.
 Print Assumptions C12_refuted_unsat_panic.
 
 (* K11: a CNF whose stored set is empty (no clause, or only tautologies) gets no cache:
-   save-cnf and clause-update answer an error, `clause-update t 3` panics. *)
+   save-cnf and clause-update cc_answer an error, `clause-update t 3` panics. *)
 Theorem C12_refuted_empty_cnf :
   exists raw n d, load_cnf always raw n = Some d /\ (forall s : asg, cs_sat s raw = true) /\
     save_cnf d = AErr E5_no_save /\
@@ -224,7 +224,7 @@ Proof. destruct ex_c12_good_input as [H1 H2]. exact (load_R always raw0 3 d0 H1 
 
 (* ... a history with accepted and rejected updates of every kind, undo, double undo and saves:
    the answers of the model *)
-Definition ex_history : list cmd :=
+Definition ex_history : list cc_cmd :=
   [ CSave;
     CUpdate None [[-3]] [];                 (* accepted *)
     CUpdate None [] [[2; 3]];               (* rejected: absent clause *)
@@ -257,7 +257,7 @@ Example ex_c12_contract :
   ex_loadable raw0 3 = true /\
   forall cs n, ex_loadable cs n = true ->
     check_wf ((fun _ _ => ex_circuit) cs n) n = true /\
-    Models ((fun _ _ => ex_circuit) cs n) n = cnf_models cs n.
+    Models ((fun _ _ => ex_circuit) cs n) n = cs_models cs n.
 Proof.
   split; [vm_compute; reflexivity|].
   intros cs n H. unfold ex_loadable in H.
